@@ -166,7 +166,7 @@ Definition with_arg (owner id : Z) (body : MX unit) : MX unit :=
   finally body
     (x' <- get_ext ;;
      match x_arg x' with
-     | Some (o, i) => put_ext (x' <| x_arg := None |>) ;;; release_if_held o i
+     | Some (o, i) => put_ext (x' <| x_arg := None |>) ;;; precycle o i
      | None => ret tt
      end).
 
@@ -221,6 +221,10 @@ Definition driver_on_readable (k : Z) : MX unit :=
   else if s_kind s =? 2 then driver_receive_from k
   else driver_connect k.
 
+(* promise.set_exception(std::make_exception_ptr(e)) with e : std::runtime_error const & stores a sliced copy:
+   the future rethrows a plain std::runtime_error, whatever the dynamic type was *)
+Definition sliced_runtime_error : list Z := [9; 0].
+
 (* DriverSend (TCP): one send() of the front buffer; returns true when the queue is empty afterwards *)
 Definition driver_send (k : Z) : MX bool :=
   s <- get_sock k ;;
@@ -239,7 +243,7 @@ Definition driver_send (k : Z) : MX bool :=
           else
             presize owner id (size - sent) ;;; ret false      (* buffer->erase(0, sent): stays at the front *)
       | inr e =>
-          resolve f 2 (exn_code e) ;;; upd_sock k (fun s => s <| s_sendq := rest |>) ;;; precycle owner id ;;;
+          resolve f 2 sliced_runtime_error ;;; upd_sock k (fun s => s <| s_sendq := rest |>) ;;; precycle owner id ;;;
           ret (match rest with [] => true | _ => false end)
       end
   end.
@@ -256,7 +260,7 @@ Definition driver_sendto (k : Z) : MX bool :=
                  (fun e => if is_runtime_error e then ret (inr e) else throw e) ;;
       (match r with
        | inl _ => resolve f 1 []
-       | inr e => resolve f 2 (exn_code e)
+       | inr e => resolve f 2 sliced_runtime_error
        end) ;;;
       upd_sock k (fun s => s <| s_sendq := rest |>) ;;; precycle owner id ;;;
       ret (match rest with [] => true | _ => false end)
